@@ -63,7 +63,7 @@ class ConnCheck(F.Check):
                 res.samples.append({'choices': ch.describe()[:12], 'events': model.seen_names[:14]})
 
         ex = explore.Explorer(make_run, check, dev_kinds=('app', 'fault'), max_dev=cfg.get('max_dev', 1),
-                              cache=cfg.get('cache', True), max_runs=cfg.get('max_runs'))
+                              cache=cfg.get('cache', True), max_runs=cfg.get('max_runs', 400000))      # safety cap, reported if hit
         ex.run()
         res.states |= ex.states
         res.transitions |= ex.edges
